@@ -101,9 +101,25 @@ pub fn delta(fields: &[&str]) -> String
 	let src = unescape(fields.get(1).copied().unwrap_or(""));
 	let tokens = lexer::lex(&src, "f.pn");
 	let ntok = tokens.base_tokens().len();
+	// the diagnostics are rendered as the second-generation command line renders them (byte offsets)
+	let render = |errors: &penne::alpha::error::Errors| -> String {
+		match std::str::from_utf8(&src)
+		{
+			Ok(text) =>
+			{
+				let units = vec![("f.pn".to_string(), text.to_string())];
+				match crate::alpha_ops::render_all_indexed(&errors.errors, &units, ariadne::IndexType::Byte)
+				{
+					Ok((n, _)) => format!("ok:{}", n),
+					Err(e) => format!("FAIL[{}]", e.replace(' ', "_")),
+				}
+			}
+			Err(_) => "skipped-invalid-utf8".to_string(),
+		}
+	};
 	if let Some(errors) = tokens.errors()
 	{
-		return format!("lexerr tokens={} codes={}", ntok, crate::codes_str(&errors.codes()));
+		return format!("lexerr tokens={} codes={} render={}", ntok, crate::codes_str(&errors.codes()), render(&errors));
 	}
 	let tree = penne::delta::parser::parse(&tokens);
 	let mut out = format!(
@@ -114,7 +130,7 @@ pub fn delta(fields: &[&str]) -> String
 	);
 	if let Some(errors) = tree.errors(&tokens)
 	{
-		return format!("parseerr {} codes={}", out, crate::codes_str(&errors.codes()));
+		return format!("parseerr {} codes={} render={}", out, crate::codes_str(&errors.codes()), render(&errors));
 	}
 	let header = tree.build_header();
 	out.push_str(&format!(" hnodes={} hdecls={}", header.num_parse_nodes(), header.num_declarations()));
